@@ -309,7 +309,13 @@ func checkPre(t ev.T, test string, c PreCase) {
 }
 
 func genShape(t *rapid.T) Shape {
-	return Shape{Dirs: rapid.IntRange(3, 14).Draw(t, "dirs"), Files: rapid.IntRange(3, 16).Draw(t, "files"), BigKB: rapid.SampledFrom([]int{256, 1024, 4096}).Draw(t, "bigkb"), Nested: rapid.IntRange(0, 2).Draw(t, "nested")}
+	files := rapid.IntRange(3, 16).Draw(t, "files")
+	dirs := rapid.IntRange(3, 14).Draw(t, "dirs")
+	// wide directories: the work left inside ONE directory after a cancellation must be bounded too
+	if rapid.IntRange(0, 4).Draw(t, "wide") == 0 {
+		files, dirs = rapid.SampledFrom([]int{60, 90, 150}).Draw(t, "wide-files"), rapid.IntRange(1, 3).Draw(t, "wide-dirs")
+	}
+	return Shape{Dirs: dirs, Files: files, BigKB: rapid.SampledFrom([]int{256, 1024, 4096}).Draw(t, "bigkb"), Nested: rapid.IntRange(0, 2).Draw(t, "nested")}
 }
 
 func TestAlreadyDone(t *testing.T) {
